@@ -5,8 +5,10 @@ import (
 	"errors"
 	"fmt"
 	"reflect"
+	"runtime"
 	"strings"
 	"sync"
+	"time"
 
 	"github.com/junioryono/godi/v4"
 	"github.com/junioryono/godi/v4/verifh/pool"
@@ -303,6 +305,24 @@ func (r *Run) Do(o Op) OpResult {
 				r.mu.Lock()
 				r.markClosed(o.Scope)
 				r.mu.Unlock()
+				// bounded progress: the watcher goroutine must close the scope. Only it has to
+				// run; the bound (20000 x (Gosched + 100us) >= 2 s of pure sleeping) is generous and
+				// its expiry is reported as its own result class, never silently.
+				sc := tgt.(godi.Scope)
+				disposed := false
+				for i := 0; i < 20000 && !disposed; i++ {
+					if _, gerr := sc.Get(scopeT); errors.Is(gerr, godi.ErrScopeDisposed) {
+						disposed = true
+						break
+					}
+					runtime.Gosched()
+					if i > 10 {
+						time.Sleep(100 * time.Microsecond)
+					}
+				}
+				if !disposed {
+					err = errCancelNotClosed
+				}
 			}
 		}
 	}()
@@ -387,6 +407,12 @@ func (r *Run) ScriptLines() []string {
 
 var errorType = reflect.TypeOf((*error)(nil)).Elem()
 
+var scopeT = reflect.TypeOf((*godi.Scope)(nil)).Elem()
+
+// errCancelNotClosed: the scope did not become disposed within the bounded wait after its
+// caller-provided context was cancelled.
+var errCancelNotClosed = errors.New("scope not disposed within the bounded wait after context cancellation")
+
 // AsEither reports whether the chain contains a T or a *T.
 func AsEither[T any](err error) bool {
 	if err == nil {
@@ -428,6 +454,8 @@ func Classify(err error) string {
 		return "already-registered"
 	case AsEither[godi.DisposalError](err):
 		return "disposal"
+	case err == errCancelNotClosed:
+		return "cancel-not-closed"
 	}
 	// innermost type name
 	inner := err
